@@ -1,14 +1,16 @@
 //! Domain `styles` (C05): styles and dimensions of cells, rows and columns across save / reload.
 //!
-//! case = {"case": id, "steps": [ {"a":"Init"},
-//!           {"a":"Assign","cells":[{"r","c","sty"}],"rows":[{"r","ht","hid","sty"}],"cols":[{"c","w","hid","sty"}]},
-//!           {"a":"Save"}, {"a":"Reload"}, .. ]}
+//! case = {"case": id, "steps": [ {"a":"Init","n":2},          n new workbooks (default 1)
+//!           {"a":"Assign","w":1,"cells":[{"r","c","sty"}],"rows":[{"r","ht","hid","sty"}],"cols":[{"c","w","hid","sty"}]},
+//!           {"a":"Import","w":1,"v":2,"items":[{"k":"cell"|"row"|"col","r","c","r2","c2"}]},
+//!                        the Style of cell (r2,c2) of workbook v (get_style(..).clone()) is set on a carrier of workbook w
+//!           {"a":"Save","w":1}, {"a":"Reload","w":1}, .. ]}      ("w" = workbook acted on, 1-based, default 1)
 //! A style of a script (`sty`) is in *assigned form*: every component is [] (not given) or [record]:
 //!   font  [{name,size,bold,italic,underline,strike,color,sch}]     size/tint travel as decimal strings
 //!   fill  [{pattern,fg,bg}]           colour = {argb,theme,tint}, {"","0"-less} = no colour: argb "" and theme 0
 //!   border[{left,right,top,bottom,diagonal:{style,color},up,down}]
-//!   align [{h,v,wrap,rot}]   numFmt ["code"]   prot [{locked,hidden}]
-//! Every step yields one event: the step's fields + "outcome" + "obs" = projection of the one sheet
+//!   align [{h,v,wrap,rot}]   numFmt [{code,id}] (or ["code"]; the id is the model's, ignored here)   prot [{locked,hidden}]
+//! Every step yields one event: the step's fields + "outcome" + "obs" = projection of the one sheet of workbook w
 //! through public getters in *effective form* (a component that is absent is read as the default
 //! component of Style::get_default_value(), as DESIGN.md Appendix A fixes it); Save adds "hex", the
 //! bytes written (projected by pydec/styles_view.py before TLC sees the event).
@@ -129,7 +131,10 @@ fn make_style(st: &Value) -> Style {
         style.set_alignment(al);
     }
     if let Some(code) = st["numFmt"].as_array().and_then(|a| a.first()) {
-        style.get_number_format_mut().set_format_code(code.as_str().expect("code"));
+        // ["code"] or [{"code": .., "id": ..}] (the id is the model's bookkeeping: a format made through the
+        // API carries no table id)
+        let c = code.as_str().or_else(|| code["code"].as_str()).expect("code");
+        style.get_number_format_mut().set_format_code(c);
     }
     if let Some(p) = st["prot"].as_array().and_then(|a| a.first()) {
         let mut pr = Protection::default();
@@ -268,34 +273,62 @@ fn assign(book: &mut Spreadsheet, st: &Value) {
     }
 }
 
+/// Import: the `Style` of a cell of workbook v (what get_style returns, cloned) is set on a cell, row or
+/// column of workbook w - what copying formats from a template workbook does.
+fn import(books: &mut [Spreadsheet], w: usize, v: usize, st: &Value) {
+    for it in st["items"].as_array().unwrap() {
+        let style = books[v].get_sheet(&0).expect("sheet").get_style((u(it, "c2"), u(it, "r2"))).clone();
+        let ws = books[w].get_sheet_mut(&0).expect("sheet");
+        match s(it, "k") {
+            "cell" => {
+                ws.set_style((u(it, "c"), u(it, "r")), style);
+            }
+            "row" => {
+                ws.get_row_dimension_mut(&u(it, "r")).set_style(style);
+            }
+            "col" => {
+                ws.get_column_dimension_by_number_mut(&u(it, "c")).set_style(style);
+            }
+            k => panic!("unknown import target {}", k),
+        }
+    }
+}
+
 fn run(case: &Value) -> Vec<Value> {
     let id = case["case"].clone();
     let steps = case["steps"].as_array().expect("steps");
-    let mut book = umya_spreadsheet::new_file();
-    let mut file: Option<Vec<u8>> = None;
+    // workbook objects of the case (1-based "w" in the steps; a step without "w" means workbook 1)
+    let mut books: Vec<Spreadsheet> = vec![umya_spreadsheet::new_file()];
+    let mut files: Vec<Option<Vec<u8>>> = vec![None];
     let mut events = vec![];
     // every font name seen in this case (the default font included), for the "names" table of Reload
     let mut names: std::collections::BTreeSet<String> = std::collections::BTreeSet::new();
     names.insert("Calibri".to_string());
     for st in steps {
         let a = s(st, "a");
+        let w = st.get("w").and_then(|x| x.as_u64()).unwrap_or(1) as usize - 1;
         let mut hexout = String::new();
         let r = catch_unwind(AssertUnwindSafe(|| -> Result<(), String> {
             match a {
                 "Init" => {
-                    book = umya_spreadsheet::new_file();
-                    file = None;
+                    let n = st.get("n").and_then(|x| x.as_u64()).unwrap_or(1) as usize;
+                    books = (0..n).map(|_| umya_spreadsheet::new_file()).collect();
+                    files = vec![None; n];
                 }
-                "Assign" => assign(&mut book, st),
+                "Assign" => assign(&mut books[w], st),
+                "Import" => {
+                    let v = u(st, "v") as usize - 1;
+                    import(&mut books, w, v, st);
+                }
                 "Save" => {
                     let mut buf: Vec<u8> = Vec::new();
-                    umya_spreadsheet::writer::xlsx::write_writer(&book, &mut buf).map_err(|e| format!("{:?}", e))?;
+                    umya_spreadsheet::writer::xlsx::write_writer(&books[w], &mut buf).map_err(|e| format!("{:?}", e))?;
                     hexout = hex(&buf);
-                    file = Some(buf);
+                    files[w] = Some(buf);
                 }
                 "Reload" => {
-                    let data = file.clone().ok_or("never saved")?;
-                    book = umya_spreadsheet::reader::xlsx::read_reader(Cursor::new(data), true).map_err(|e| format!("{:?}", e))?;
+                    let data = files[w].clone().ok_or("never saved")?;
+                    books[w] = umya_spreadsheet::reader::xlsx::read_reader(Cursor::new(data), true).map_err(|e| format!("{:?}", e))?;
                 }
                 _ => panic!("unknown step {}", a),
             }
@@ -308,7 +341,9 @@ fn run(case: &Value) -> Vec<Value> {
         };
         let mut e = st.clone();
         e["case"] = id.clone();
-        e["obs"] = match catch_unwind(AssertUnwindSafe(|| project_book(&book))) {
+        e["w"] = json!(w + 1);
+        // the workbook the step acted on
+        e["obs"] = match catch_unwind(AssertUnwindSafe(|| project_book(&books[w]))) {
             Ok(v) => v,
             Err(_) => {
                 outcome = "panic";
